@@ -386,10 +386,31 @@ theorem R.stmtPre {p q : P} (h : R p q) (neg : Bool) : R (p.stmtPre neg) (q.stmt
   · exact (h.set_wroteSemi false).spacedString [33] rfl
 
 /-- the terminator of the re-read statement sits where `p.stmtEnd semi bg` writes it -/
-structure TrSemi (p : P) (semi : Pos) (bg : Bool) (semi' : Pos) : Prop where
+structure TrSemiS (p : P) (semi : Pos) (bg : Bool) (semi' : Pos) : Prop where
   valid : semi'.valid = ((semi.valid && decide (semi.line > p.line)) || bg)
   sepLine : semi.valid = true → semi.line > p.line → semi'.line = p.cur + 1
   bgLine : ¬ (semi.valid = true ∧ semi.line > p.line) → bg = true → semi'.line = p.cur
+
+/-- the weaker form the printer needs: a terminator the first run moved to a continuation line is
+    there, one line down; any other terminator of the re-read statement (also the `;` that
+    `semiRsrv` writes before `}` and the parser gives to the last statement) is on the current
+    line -/
+structure TrSemi (p : P) (semi : Pos) (bg : Bool) (semi' : Pos) : Prop where
+  sepV : semi.valid = true → semi.line > p.line → semi'.valid = true ∧ semi'.line = p.cur + 1
+  nosep : ¬ (semi.valid = true ∧ semi.line > p.line) → semi'.valid = true → semi'.line = p.cur
+
+theorem TrSemiS.weak {p : P} {semi semi' : Pos} {bg : Bool} (t : TrSemiS p semi bg semi') : TrSemi p semi bg semi' := by
+  refine ⟨fun hv hl => ⟨?_, t.sepLine hv hl⟩, fun hn hv' => ?_⟩
+  · rw [t.valid]; simp [hv, hl]
+  · have hv := t.valid
+    have e1 : (semi.valid && decide (semi.line > p.line)) = false := by
+      cases h : semi.valid
+      · rfl
+      · simp only [Bool.true_and, decide_eq_false_iff_not]
+        exact fun hh => hn ⟨h, hh⟩
+    rw [e1, hv'] at hv
+    have hb : bg = true := by simpa using hv.symm
+    exact t.bgLine hn hb
 
 theorem R.stmtEnd {p q : P} (h : R p q) {semi semi' : Pos} {bg : Bool} (t : TrSemi p semi bg semi') :
     R (p.stmtEnd semi bg) (q.stmtEnd semi' bg) := by
@@ -407,11 +428,9 @@ theorem R.stmtEnd {p q : P} (h : R p q) {semi semi' : Pos} {bg : Bool} (t : TrSe
   apply R.decLevel
   by_cases c : semi.valid = true ∧ semi.line > p1.line
   · have e1 : (semi.valid && decide (semi.line > p1.line)) = true := by simp [c.1, c.2]
-    have hv := t.valid
-    have hln := t.sepLine c.1 (l1 ▸ c.2)
-    rw [l1.symm, e1] at hv
+    obtain ⟨hv, hln⟩ := t.sepV c.1 (l1 ▸ c.2)
     have e2 : (semi'.valid && decide (semi'.line > l)) = true := by
-      simp only [hv, Bool.true_or, Bool.true_and, decide_eq_true_eq]; omega
+      simp only [hv, Bool.true_and, decide_eq_true_eq]; omega
     simp only [e1, e2, Bool.true_or, ↓reduceIte]
     cases bg
     · exact ((h1.bslashNewl.tok [59] rfl).set_wroteSemi true).set_wantSpace .required
@@ -421,16 +440,16 @@ theorem R.stmtEnd {p q : P} (h : R p q) {semi semi' : Pos} {bg : Bool} (t : TrSe
       · rfl
       · simp only [Bool.true_and, decide_eq_false_iff_not]
         exact fun hh => c ⟨hv, hh⟩
-    have hv := t.valid
-    rw [l1.symm, e1] at hv
+    have e2 : (semi'.valid && decide (semi'.line > l)) = false := by
+      cases hv' : semi'.valid
+      · rfl
+      · have := t.nosep (l1 ▸ c) hv'
+        simp only [Bool.true_and, decide_eq_false_iff_not]
+        omega
     cases bg
-    · have e2 : (semi'.valid && decide (semi'.line > l)) = false := by simp [hv]
-      simp only [e1, e2, Bool.false_or, Bool.false_eq_true, ↓reduceIte]
+    · simp only [e1, e2, Bool.false_or, Bool.false_eq_true, ↓reduceIte]
       exact h1.set_wroteSemi false
-    · have hln := t.bgLine (l1 ▸ c) rfl
-      have e2 : (semi'.valid && decide (semi'.line > l)) = false := by
-        simp only [Bool.and_eq_false_imp, decide_eq_false_iff_not]; intro _; omega
-      simp only [e1, e2, Bool.or_true, Bool.false_eq_true, ↓reduceIte]
+    · simp only [e1, e2, Bool.or_true, Bool.false_eq_true, ↓reduceIte]
       split
       · exact ((h1.space.tok [38] rfl).set_wroteSemi true).set_wantSpace .required
       · exact ((h1.tok [38] rfl).set_wroteSemi true).set_wantSpace .required
@@ -726,8 +745,47 @@ def TrCmd (p : P) : Cmd → Cmd → Prop
         opPos'.line ≤ y'.pos.line ∧
         TrStmt ((((p.advanceLine x.pos.line).spacePad).stmt x).binaryOp opPos op y.pos.line y.isBinaryCmd).1 y y'
       | _ => False
-  | .subshell _ _ _, _ => False
-  | .block _ _ _, _ => False
+  | .subshell lp rp ss, c' =>
+      match c' with
+      | .subshell lp' rp' ss' =>
+        -- same shape; `(` where it was written
+        ss'.length = ss.length ∧ ss'.headLparen = ss.headLparen ∧ ss'.singleRparen = ss.singleRparen ∧
+        lp'.line = p.cur ∧
+        -- the position comparisons of the printer give the same answers on the re-read tree
+        (ss.headLparen = true → (lp'.line != ss'.headLine) = (lp.line != ss.headLine)) ∧
+        (ss.length ≤ 1 →
+          nestB (((p.advanceLine lp.line).spacePad).subshellOpen lp ss).cur ss' rp' =
+            nestB (((p.advanceLine lp.line).spacePad).subshellOpen lp ss).line ss rp) ∧
+        (ss.single = true →
+          (((((p.advanceLine lp.line).spacePad).subshellOpen lp ss).nestPre ss rp).wantNewline ||
+              decide (ss'.headLine > ((((p.advanceLine lp.line).spacePad).subshellOpen lp ss).nestPre ss rp).cur)) =
+            ((((p.advanceLine lp.line).spacePad).subshellOpen lp ss).nestPre ss rp).listSep ss) ∧
+        (ss.singleRparen = true → (lp'.line == rp'.line) = (lp.line == rp.line)) ∧
+        -- the statements, and `)` where it was written
+        TrLoop ((((p.advanceLine lp.line).spacePad).subshellOpen lp ss).nestPre ss rp) true ss ss' ∧
+        rp'.line = ((p.subClose lp rp ss).rparenPre rp.line).cur
+      | _ => False
+  | .block lb rb ss, c' =>
+      match c' with
+      | .block lb' rb' ss' =>
+        ss'.length = ss.length ∧ lb'.line = p.cur ∧
+        (ss.length ≤ 1 → nestB (p.blkOpen lb).cur ss' rb' = nestB (p.blkOpen lb).line ss rb) ∧
+        (ss.single = true →
+          (((p.blkOpen lb).nestPre ss rb).wantNewline ||
+              decide (ss'.headLine > ((p.blkOpen lb).nestPre ss rb).cur)) =
+            ((p.blkOpen lb).nestPre ss rb).listSep ss) ∧
+        TrLoop ((p.blkOpen lb).nestPre ss rb) true ss ss' ∧
+        (p.blkBody lb rb ss).firstLine = false ∧
+        rb'.line = ((p.blkBody lb rb ss).semiPre rb.line).cur
+      | _ => False
+/-- the statements of a list, as read back from where the `stmtList` loop writes them -/
+def TrLoop (p : P) (first : Bool) : Stmts → Stmts → Prop
+  | .nil, .nil => True
+  | .cons s rest, .cons s' rest' =>
+      TrStmt (p.stmtSep first s.pos.line) s s' ∧
+      TrLoop { ((p.stmtSep first s.pos.line).stmt s) with wantNewline := true } false rest rest'
+  | .nil, .cons _ _ => False
+  | .cons _ _, .nil => False
 end
 
 theorem TrStmt.pos {p : P} {s s' : Stmt} (t : TrStmt p s s') : s'.pos.line = p.cur := by
@@ -792,6 +850,327 @@ theorem R.call {p q : P} (h : R p q) (args args' : List Word) (t : TrCall p args
         (h.advance _ _ (by rw [hfirst]; exact Nat.le_refl _)).spacePad.incLevel.decLevel
       exact (h0.wordJoin [w] [w'] t1).wordJoin rest rest' t2
 
+/-! ### subshells and blocks -/
+
+theorem nestedStmtsWith_eq2 (p : P) (ss : Stmts) (c : Pos) (loop : P → P) :
+    p.nestedStmtsWith ss c loop = ((p.nestPre ss c).stmtListWith ss loop).decLevel := rfl
+
+theorem stmtListWith_eq2 (p : P) (ss : Stmts) (loop : P → P) :
+    p.stmtListWith ss loop = (if ss.single && !p.listSep ss then { loop p with wantNewline := false } else loop p) := by
+  unfold P.stmtListWith P.listSep
+  cases ss with
+  | nil => simp [Stmts.single]
+  | cons s r => cases r <;> simp [Stmts.single]
+
+theorem command_block2 (p : P) (lb rb : Pos) (ss : Stmts) :
+    p.command (.block lb rb ss) = (p.blkBody lb rb ss).semiRsrv [125] rb.line := by
+  rw [P.command]; rfl
+
+theorem semiRsrv_eq2 (p : P) (s : Bytes) (l : Nat) :
+    p.semiRsrv s l = { ((p.semiPre l).tok s) with wantSpace := .required } := rfl
+
+theorem command_subshell2 (p : P) (lp rp : Pos) (ss : Stmts) :
+    p.command (.subshell lp rp ss) = (p.subClose lp rp ss).rightParen rp.line := by
+  rw [P.command]; rfl
+
+theorem single_of_length {ss ss' : Stmts} (h : ss'.length = ss.length) : ss'.single = ss.single := by
+  cases ss with
+  | nil => cases ss' with
+    | nil => rfl
+    | cons _ _ => simp [Stmts.length] at h
+  | cons s r => cases ss' with
+    | nil => simp [Stmts.length] at h
+    | cons s' r' =>
+      cases r with
+      | nil => cases r' with
+        | nil => rfl
+        | cons _ _ => simp [Stmts.length] at h
+      | cons _ _ => cases r' with
+        | nil => simp [Stmts.length] at h
+        | cons _ _ => rfl
+
+theorem advanceLine_idem (p : P) (a : Nat) : (p.advanceLine a).advanceLine a = p.advanceLine a := by
+  simp [P.advanceLine, Nat.max_assoc]
+
+/-- `newlines` alone: the second run is told the line on which the next token goes -/
+theorem R.newlines {p q : P} (h : R p q) (l1 l2 : Nat) (hl : l2 = (p.newlines l1).cur) :
+    R (p.newlines l1) (q.newlines l2) := by
+  have hsl := h.sl
+  have hq0 := h.line
+  obtain ⟨o, l, rfl⟩ := h.elim
+  have hq : l = p.cur := hq0
+  rw [newlines_eq] at hl ⊢
+  rw [newlines_eq]
+  rw [wantsNewline_eq p l1 hsl] at hl
+  rw [wantsNewline_eq p l1 hsl, wantsNewline_eq _ l2 (show ({ p with out := o, line := l } : P).o.singleLine = false from hsl)]
+  simp only []
+  by_cases hf : p.firstLine = true
+  rotate_left
+  · have hnf : ¬ p.firstLine = true := hf
+    rw [if_neg hnf] at hl
+    rw [if_neg hnf, if_neg hnf]
+    by_cases w1 : (p.mustNewline || (p.wantNewline || decide (l1 > p.line))) = true
+    · simp only [w1, Bool.not_true, Bool.false_eq_true, ↓reduceIte] at hl ⊢
+      rw [cur_indent, cur_advanceLine] at hl
+      by_cases d1 : (decide (l1 > p.line + 1) && !p.o.minify) = true
+      · simp only [d1, ↓reduceIte] at hl ⊢
+        rw [cur_gapw, cur_nl] at hl
+        have hl' : l2 = p.cur + 2 := by rw [hl]; show p.cur + 1 + 1 = _; rfl
+        have w2 : (p.mustNewline || (p.wantNewline || decide (l2 > l))) = true := by
+          have : l2 > l := by omega
+          simp [this]
+        have d2 : (decide (l2 > l + 1) && !p.o.minify) = true := by
+          have : l2 > l + 1 := by omega
+          simp only [Bool.and_eq_true, decide_eq_true_eq] at d1 ⊢
+          exact ⟨this, d1.2⟩
+        simp only [w2, d2, Bool.not_true, Bool.false_eq_true, ↓reduceIte]
+        apply R.indent
+        have := h.nlK true l1 l2 hl'
+        rw [advanceLine_idem, advanceLine_idem] at this
+        exact this
+      · simp only [d1, Bool.false_eq_true, ↓reduceIte] at hl ⊢
+        rw [cur_nl] at hl
+        have w2 : (p.mustNewline || (p.wantNewline || decide (l2 > l))) = true := by
+          have : l2 > l := by omega
+          simp [this]
+        have d2 : (decide (l2 > l + 1) && !p.o.minify) = false := by
+          have : ¬ l2 > l + 1 := by omega
+          simp [this]
+        simp only [w2, d2, Bool.not_true, Bool.false_eq_true, ↓reduceIte]
+        apply R.indent
+        have := h.nlK false l1 l2 hl
+        rw [advanceLine_idem, advanceLine_idem] at this
+        exact this
+    · simp only [w1, Bool.not_false, ↓reduceIte] at hl ⊢
+      have w1' : (p.mustNewline || (p.wantNewline || decide (l1 > p.line))) = false := by
+        simpa using w1
+      have hm : p.mustNewline = false := by
+        cases hh : p.mustNewline
+        · rfl
+        · simp [hh] at w1'
+      have hw : p.wantNewline = false := by
+        cases hh : p.wantNewline
+        · rfl
+        · simp [hh] at w1'
+      have w2 : (p.mustNewline || (p.wantNewline || decide (l2 > l))) = false := by
+        have : ¬ l2 > l := by omega
+        simp [hm, hw, this]
+      simp only [w2, Bool.not_false, ↓reduceIte]
+      exact h
+  · rw [if_pos hf, if_pos hf]
+    exact h.set_firstLine false
+
+theorem R.rightParen {p q : P} (h : R p q) (l1 l2 : Nat)
+    (hl : l2 = (p.rparenPre l1).cur) : R (p.rightParen l1) (q.rightParen l2) := by
+  unfold P.rparenPre at hl
+  unfold P.rightParen
+  simp only []
+  rw [h.o]
+  apply R.set_wantSpace
+  refine R.tok ?_ [41] rfl
+  cases hm : p.o.minify
+  · simp only [hm, Bool.false_eq_true, ↓reduceIte, Bool.not_false] at hl ⊢
+    exact h.newlines l1 l2 hl
+  · simp only [Bool.not_true, Bool.false_eq_true, ↓reduceIte]
+    exact h
+
+theorem closingParenSpace_eq2 (x : P) (tt : Stmts) (a b : Nat) : x.closingParenSpace tt a b =
+    (if tt.singleRparen && (x.o.singleLine || a == b) then { x with wantSpace := .required }
+     else { x with wantSpace := .notRequired }).spacePad := by
+  unfold P.closingParenSpace
+  cases tt with
+  | nil => rfl
+  | cons s r =>
+    cases r with
+    | nil => rfl
+    | cons _ _ => rfl
+
+theorem R.closingParenSpace {p q : P} (h : R p q) (ss ss' : Stmts) (ol cl ol' cl' : Nat)
+    (hs : ss'.singleRparen = ss.singleRparen) (hag : ss.singleRparen = true → (ol' == cl') = (ol == cl)) :
+    R (p.closingParenSpace ss ol cl) (q.closingParenSpace ss' ol' cl') := by
+  have hsl := h.sl
+  obtain ⟨o, l, rfl⟩ := h.elim
+  rw [closingParenSpace_eq2, closingParenSpace_eq2, hs]
+  simp only [hsl, Bool.false_or]
+  apply R.spacePad
+  cases hsr : ss.singleRparen
+  · simp only [Bool.false_and, Bool.false_eq_true, ↓reduceIte]
+    exact h.set_wantSpace _
+  · rw [hag hsr]
+    simp only [Bool.true_and]
+    split
+    · exact h.set_wantSpace _
+    · exact h.set_wantSpace _
+
+theorem nestPre_line (p : P) (ss : Stmts) (c : Pos) : (p.nestPre ss c).line = p.line := by
+  unfold P.nestPre
+  simp only
+  split
+  · exact incLevel_line p
+  · split
+    · exact incLevel_line p
+    · exact incLevel_line p
+
+theorem R.nestPre {p q : P} (h : R p q) (ss ss' : Stmts) (c c' : Pos) (hlen : ss'.length = ss.length)
+    (hag : ss.length ≤ 1 → nestB p.cur ss' c' = nestB p.line ss c) :
+    R (p.nestPre ss c) (q.nestPre ss' c') := by
+  have h1 := h.incLevel
+  have l1 : p.incLevel.line = p.line := incLevel_line p
+  have c1 : p.incLevel.cur = p.cur := cur_incLevel p
+  unfold P.nestPre
+  simp only []
+  generalize p.incLevel = p1 at h1 l1 c1 ⊢
+  generalize q.incLevel = q1 at h1 ⊢
+  have hq0 := h1.line
+  obtain ⟨o, l, rfl⟩ := h1.elim
+  have hq : l = p1.cur := hq0
+  simp only [hlen]
+  by_cases hgt : ss.length > 1
+  · simp only [hgt, ↓reduceIte]
+    exact h1.set_wantNewline true
+  · simp only [hgt, ↓reduceIte]
+    have hh := hag (by omega)
+    unfold nestB at hh
+    rw [hlen, ← c1, ← hq, ← l1] at hh
+    rw [hh]
+    split
+    · exact h1.set_wantNewline true
+    · exact h1
+
+theorem R.stmtListWith {p q : P} (h : R p q) (ss ss' : Stmts) (loop loop' : P → P)
+    (hlen : ss'.length = ss.length)
+    (hag : ss.single = true → (p.wantNewline || decide (ss'.headLine > p.cur)) = p.listSep ss)
+    (hl : R (loop p) (loop' q)) : R (p.stmtListWith ss loop) (q.stmtListWith ss' loop') := by
+  rw [stmtListWith_eq2, stmtListWith_eq2, single_of_length hlen]
+  cases hs : ss.single
+  · simp only [Bool.false_and, Bool.false_eq_true, ↓reduceIte]
+    exact hl
+  · have e : q.listSep ss' = p.listSep ss := by
+      rw [← hag hs]
+      have hs' : ss'.single = true := by rw [single_of_length hlen, hs]
+      unfold P.listSep
+      rw [h.wantNewline, h.line]
+      cases ss' with
+      | nil => simp [Stmts.single] at hs'
+      | cons s' r' => simp [Stmts.headLine]
+    rw [e]
+    simp only [Bool.true_and]
+    split
+    · exact hl.set_wantNewline false
+    · exact hl
+
+theorem R.nested {p q : P} (h : R p q) (ss ss' : Stmts) (c c' : Pos) (loop loop' : P → P)
+    (hlen : ss'.length = ss.length)
+    (hagB : ss.length ≤ 1 → nestB p.cur ss' c' = nestB p.line ss c)
+    (hagS : ss.single = true →
+      ((p.nestPre ss c).wantNewline || decide (ss'.headLine > (p.nestPre ss c).cur)) = (p.nestPre ss c).listSep ss)
+    (hl : R (loop (p.nestPre ss c)) (loop' (q.nestPre ss' c'))) :
+    R (p.nestedStmtsWith ss c loop) (q.nestedStmtsWith ss' c' loop') := by
+  rw [nestedStmtsWith_eq2, nestedStmtsWith_eq2]
+  exact ((h.nestPre ss ss' c c' hlen hagB).stmtListWith ss ss' loop loop' hlen hagS hl).decLevel
+
+theorem R.subshellOpen {p q : P} (h : R p q) (lp lp' : Pos) (ss ss' : Stmts) (hlen : ss'.length = ss.length)
+    (hhl : ss'.headLparen = ss.headLparen)
+    (hag : ss.headLparen = true → (lp'.line != ss'.headLine) = (lp.line != ss.headLine)) :
+    R (p.subshellOpen lp ss) (q.subshellOpen lp' ss') := by
+  have h1 := h.tok [40] rfl
+  unfold P.subshellOpen
+  simp only []
+  apply R.spacePad
+  generalize p.tok [40] = p1 at h1 ⊢
+  generalize q.tok [40] = q1 at h1 ⊢
+  have hsl := h1.sl
+  obtain ⟨o, l, rfl⟩ := h1.elim
+  cases ss with
+  | nil =>
+    cases ss' with
+    | nil => r_same h1
+    | cons _ _ => simp [Stmts.length] at hlen
+  | cons s rest =>
+    cases ss' with
+    | nil => simp [Stmts.length] at hlen
+    | cons s' rest' =>
+      simp only [Stmts.headLparen] at hhl hag
+      simp only [Stmts.headLine] at hag
+      have hr : rest'.length = rest.length := by simpa [Stmts.length] using hlen
+      simp only [hhl, hr, hsl, Bool.not_false, Bool.and_true]
+      cases hs : s.startsWithLparen
+      · simp only [Bool.false_eq_true, ↓reduceIte]
+        r_same h1
+      · simp only [↓reduceIte]
+        rw [hag hs]
+        split
+        · split
+          · r_same h1
+          · r_same h1
+        · r_same h1
+
+theorem R.blkOpen {p q : P} (h : R p q) (lb lb' : Pos) (hl : lb'.line = p.cur) : R (p.blkOpen lb) (q.blkOpen lb') := by
+  unfold P.blkOpen
+  simp only []
+  have h1 := (h.advance lb.line lb'.line (by rw [hl]; exact Nat.le_refl _)).spacePad.tok [123] rfl
+  generalize (p.advanceLine lb.line).spacePad.tok [123] = p1 at h1 ⊢
+  generalize (q.advanceLine lb'.line).spacePad.tok [123] = q1 at h1 ⊢
+  obtain ⟨o, l, rfl⟩ := h1.elim
+  r_same h1
+
+theorem R.semiPre {p q : P} (h : R p q) (l1 l2 : Nat) (hf : p.firstLine = false) (hl : l2 = (p.semiPre l1).cur) :
+    R (p.semiPre l1) (q.semiPre l2) := by
+  have hsl := h.sl
+  unfold P.semiPre at hl ⊢
+  rw [wantsNewline_eq p l1 hsl] at hl
+  rw [wantsNewline_eq p l1 hsl, wantsNewline_eq q l2 (h.o ▸ hsl)]
+  rw [h.mustNewline, h.wantNewline, h.line]
+  by_cases w1 : (p.mustNewline || (p.wantNewline || decide (l1 > p.line))) = true
+  · simp only [w1, ↓reduceIte] at hl ⊢
+    -- a newline is written
+    have hgt : l2 > p.cur := by
+      rw [hl, newlines_eq, hf]
+      simp only [Bool.false_eq_true, ↓reduceIte]
+      rw [wantsNewline_eq p l1 hsl, w1]
+      simp only [Bool.not_true, Bool.false_eq_true, ↓reduceIte]
+      rw [cur_indent, cur_advanceLine]
+      split
+      · rw [cur_gapw, cur_nl]; omega
+      · rw [cur_nl]; omega
+    have w2 : (p.mustNewline || (p.wantNewline || decide (l2 > p.cur))) = true := by simp [hgt]
+    simp only [w2, ↓reduceIte]
+    exact h.newlines l1 l2 hl
+  · have w1' : (p.mustNewline || (p.wantNewline || decide (l1 > p.line))) = false := by simpa using w1
+    simp only [w1', Bool.false_eq_true, ↓reduceIte] at hl ⊢
+    have hm : p.mustNewline = false := by
+      cases hh : p.mustNewline
+      · rfl
+      · simp [hh] at w1'
+    have hw : p.wantNewline = false := by
+      cases hh : p.wantNewline
+      · rfl
+      · simp [hh] at w1'
+    have hc : l2 = p.cur := by
+      rw [hl]
+      have e : ∀ x : P, (if (!x.o.minify) = true then x.spacePad else x).cur = x.cur := by
+        intro x; split
+        · exact cur_spacePad x
+        · rfl
+      rw [e]
+      split
+      · rw [cur_tok]; rfl
+      · rfl
+    have w2 : (p.mustNewline || (p.wantNewline || decide (l2 > p.cur))) = false := by
+      simp [hm, hw, hc]
+    simp only [w2, Bool.false_eq_true, ↓reduceIte]
+    have hx : R (if (!p.wroteSemi) = true then p.tok [59] else p) (if (!q.wroteSemi) = true then q.tok [59] else q) := by
+      rw [h.wroteSemi]
+      split
+      · exact h.tok [59] rfl
+      · exact h
+    generalize (if (!p.wroteSemi) = true then p.tok [59] else p) = px at hx ⊢
+    generalize (if (!q.wroteSemi) = true then q.tok [59] else q) = qx at hx ⊢
+    rw [hx.o]
+    split
+    · exact hx.spacePad
+    · exact hx
+
 mutual
 theorem fix_stmt : ∀ (s s' : Stmt) (p q : P), R p q → TrStmt p s s' → R (p.stmt s) (q.stmt s')
   | .mk pos semi neg bg cmd, .mk pos' semi' neg' bg' cmd', p, q, h, t => by
@@ -824,18 +1203,43 @@ theorem fix_cmd : ∀ (c c' : Cmd) (p q : P), R p q → TrCmd p c c' → R (p.co
       have k := h1.binaryOp opPos opPos' op' y.pos.line y'.pos.line y.isBinaryCmd ty.pos hop
       rw [ty.isBinary, k.2]
       exact (fix_stmt y y' _ _ k.1 ty).binaryEnd _ _
-  | .subshell _ _ _, _, _, _, _, t => by simp [TrCmd] at t
-  | .block _ _ _, _, _, _, _, t => by simp [TrCmd] at t
-end
-
-/-- the statements of a list, as read back from where the `stmtList` loop writes them -/
-def TrLoop (p : P) (first : Bool) : Stmts → Stmts → Prop
-  | .nil, .nil => True
-  | .cons s rest, .cons s' rest' =>
-      TrStmt (p.stmtSep first s.pos.line) s s' ∧
-      TrLoop { ((p.stmtSep first s.pos.line).stmt s) with wantNewline := true } false rest rest'
-  | _, _ => False
-
+  | .subshell lp rp ss, c', p, q, h, t => by
+    cases c' with
+    | call _ => simp [TrCmd] at t
+    | block _ _ _ => simp [TrCmd] at t
+    | binary _ _ _ _ => simp [TrCmd] at t
+    | subshell lp' rp' ss' =>
+      simp only [TrCmd] at t
+      obtain ⟨hlen, hhl, hsr, hlp, hagO, hagB, hagS, hagE, tl, hrp⟩ := t
+      rw [command_subshell2, command_subshell2]
+      have h0 : R ((p.advanceLine lp.line).spacePad) ((q.advanceLine lp'.line).spacePad) :=
+        (h.advance _ _ (by rw [hlp]; exact Nat.le_refl _)).spacePad
+      have h1 := h0.subshellOpen lp lp' ss ss' hlen hhl hagO
+      have hloop := fix_loop ss ss' _ _ true (h1.nestPre ss ss' rp rp' hlen hagB) tl
+      have h4 := h1.nested ss ss' rp rp' (fun x => x.stmtListLoop true ss) (fun x => x.stmtListLoop true ss')
+        hlen hagB hagS hloop
+      have h5 := h4.closingParenSpace ss ss' lp.line rp.line lp'.line rp'.line hsr hagE
+      exact h5.rightParen rp.line rp'.line hrp
+  | .block lb rb ss, c', p, q, h, t => by
+    cases c' with
+    | call _ => simp [TrCmd] at t
+    | subshell _ _ _ => simp [TrCmd] at t
+    | binary _ _ _ _ => simp [TrCmd] at t
+    | block lb' rb' ss' =>
+      simp only [TrCmd] at t
+      obtain ⟨hlen, hlb, hagB, hagS, tl, hf, hrb⟩ := t
+      rw [command_block2, command_block2, semiRsrv_eq2, semiRsrv_eq2]
+      have h1 := h.blkOpen lb lb' hlb
+      have hloop := fix_loop ss ss' _ _ true (h1.nestPre ss ss' rb rb' hlen hagB) tl
+      have h4 := h1.nested ss ss' rb rb' (fun x => x.stmtListLoop true ss) (fun x => x.stmtListLoop true ss')
+        hlen hagB hagS hloop
+      have h5 : R (p.blkBody lb rb ss) (q.blkBody lb' rb' ss') := by
+        unfold P.blkBody
+        rw [h4.o, hlen]
+        split
+        · exact h4.space
+        · exact h4
+      exact ((h5.semiPre rb.line rb'.line hf hrb).tok [125] rfl).set_wantSpace _
 theorem fix_loop : ∀ (ss ss' : Stmts) (p q : P) (first : Bool), R p q → TrLoop p first ss ss' →
     R (p.stmtListLoop first ss) (q.stmtListLoop first ss')
   | .nil, .nil, p, q, first, h, _ => by
@@ -849,6 +1253,7 @@ theorem fix_loop : ∀ (ss ss' : Stmts) (p q : P) (first : Bool), R p q → TrLo
     have h1 := h.stmtSep first s.pos.line s'.pos.line ts.pos
     have h2 := fix_stmt s s' _ _ h1 ts
     exact fix_loop rest rest' _ _ false (h2.set_wantNewline true) tr
+end
 
 /-! ### files -/
 
@@ -964,7 +1369,7 @@ theorem trCallB_sound {p : P} {args args' : List Word} (h : trCallB p args args'
         exact ⟨pos, rfl, trArgsB_sound _ _ _ _ h.1, trArgsB_sound _ _ _ _ h.2⟩
 
 theorem trSemiB_sound {p : P} {semi semi' : Pos} {bg : Bool} (h : trSemiB p semi bg semi' = true) :
-    TrSemi p semi bg semi' := by
+    TrSemiS p semi bg semi' := by
   unfold trSemiB at h
   simp only [Bool.and_eq_true, beq_iff_eq] at h
   obtain ⟨h1, h2⟩ := h
@@ -987,7 +1392,7 @@ theorem trStmtB_sound : ∀ (s s' : Stmt) (p : P), trStmtB p s s' = true → TrS
     simp only [Bool.and_eq_true, beq_iff_eq] at h
     obtain ⟨⟨⟨⟨h1, h2⟩, h3⟩, h4⟩, h5⟩ := h
     simp only [TrStmt]
-    exact ⟨h1, h2, h3, trCmdB_sound cmd cmd' _ h4, trSemiB_sound h5⟩
+    exact ⟨h1, h2, h3, trCmdB_sound cmd cmd' _ h4, (trSemiB_sound h5).weak⟩
 theorem trCmdB_sound : ∀ (c c' : Cmd) (p : P), trCmdB p c c' = true → TrCmd p c c'
   | .call args, c', p, h => by
     cases c' with
